@@ -3,7 +3,7 @@
    (over Model/Subtotals.v), tied to matrix/measure.py and stripe/measure.py by the
    correspondence check harness/props/c15.py. *)
 From Coq Require Import QArith ZArith List Bool Lia Arith.
-From CC Require Import Base.XQ Base.ListX Model.Subtotals Model.Share Proofs.ShareProofs.
+From CC Require Import Base.XQ Base.ListX Model.Subtotals Model.Share Proofs.ShareProofs Proofs.ShareScale.
 Import ListNotations.
 Local Close Scope Q_scope.
 Local Open Scope nat_scope.
@@ -135,6 +135,27 @@ Theorem C15_strand_shares_sum_to_one sums t :
   nansum (stripe_share_base sums) =x= Fin 1.
 Proof. exact (stripe_share_sum_one sums t). Qed.
 Print Assumptions C15_strand_shares_sum_to_one.
+
+(* UNIT INVARIANCE: a share cannot depend on the unit the summed variable is recorded in - multiplying
+   every sum of the strand by one positive factor k (1e-12 .. 1e9 in the C15 check) changes no share,
+   including the x/0 = +-inf and 0/0 = NaN cells.  (After seeded change C15-11: an `np.isclose` guard on
+   the total made every share NaN when the total was below 1e-8.) *)
+Theorem C15_strand_share_unit_invariant k sums i : (0 < k)%Q -> Forall fin_or_nan sums ->
+  vnth (stripe_share_base (map (xscale k) sums)) i =x= vnth (stripe_share_base sums) i.
+Proof. exact (stripe_share_scale_invariant k sums i). Qed.
+Print Assumptions C15_strand_share_unit_invariant.
+
+Example C15_example_unit_invariant :
+  let sums := [Fin 3; NaN; Fin 1; Fin 4]%Q in
+  let k := (1 # 1000000000000)%Q in
+  (0 < k)%Q /\ Forall fin_or_nan sums /\
+  vnth (stripe_share_base (map (xscale k) sums)) 0 =x= Fin (3 # 8) /\
+  vnth (stripe_share_base (map (xscale k) sums)) 1 =x= NaN /\
+  vnth (stripe_share_base sums) 0 =x= Fin (3 # 8).
+Proof.
+  cbv zeta. split; [reflexivity|]. split; [repeat constructor|].
+  repeat split; vm_compute; reflexivity.
+Qed.
 
 (* non-vacuity: rows [10;20;NaN] / [30;40;50], row subtotal of rows 0+1: its column share
    is 40/40 = 1 in column 0 and its addends' shares 10/40 + 30/40 add up to it; in the
